@@ -77,6 +77,11 @@ def gen(rng, tier):
         elif harm:
             lines.append("M.harm hr %d %s %s %s" % (nd, " ".join("x%d" % i for i in range(nd)), fbits(hk), " ".join(map(fbits, hc))))
         nsteps = rng.randint(8, 40) if tier == "quick" else rng.randint(8, 120)
+        rewind = (k % 4 == 2) or (nd == 1 and per[0] and k % 2 == 0)
+        if rewind:
+            import os as _os, cvbuild as _cb
+            rw_pfx = _os.path.join(_cb.CACHE, "c04-scratch"); _os.makedirs(rw_pfx, exist_ok=True); rw_pfx = _os.path.join(rw_pfx, "rw%d" % k)
+            nsteps = max(nsteps, 12)
         hist = []
         # a random walk that mostly stays in the grid, with excursions
         cur = [rng.uniform(lo[i], hi[i]) for i in range(nd)]
@@ -94,12 +99,24 @@ def gen(rng, tier):
                 lines.append(pos(i, rng.uniform(-1, 1), rng.uniform(-1, 1), cur[i]))
                 lines.append(tf(i, rng.uniform(-1, 1), rng.uniform(-1, 1), fs[i]))
             cont = s_ > 0 and rng.rand() < 0.1
+            after_load = False
+            if rewind and s_ == 2 * nsteps // 3:
+                # back to the checkpoint in the same session: counts and gradient sums are those of the state again, and so is everything
+                # derived from them (the mean subtracted for a periodic variable)
+                # (the engine goes back to the coordinates of the checkpoint as well: the stop step is repeated)
+                sv = [h_ for h_ in hist if h_.get("save")][0]
+                xs = list(sv["x"]); cur = list(xs)
+                for i in range(nd):
+                    lines.append(pos(i, 0.0, 0.0, xs[i]))
+                lines.append("m.load %s" % rw_pfx); after_load = True; cont = False
             lines.append("m.step cont" if cont else "m.step")
             step_line = len(lines)
             for i in range(nd):
                 lines.append("m.cv x%d ft fa" % i)
             lines.append("m.forces")
-            hist.append({"x": xs, "f": fs, "cont": cont, "line": step_line})
+            hist.append({"x": xs, "f": fs, "cont": cont, "line": step_line, "after_load": after_load})
+            if rewind and s_ == nsteps // 3:
+                lines.append("m.save %s" % rw_pfx); hist[-1]["save"] = True
             if rng.rand() < 0.1:
                 lines.append("a.dump abf")
         lines.append("a.dump abf")
@@ -161,7 +178,11 @@ def oracle(case, out):
         return all(0 <= b[i] < nx[i] for i in range(nd))
 
     applied_nonzero = False
+    it_restart = 0; snap = None
     for h in m["history"]:
+        if h.get("after_load") and snap is not None:
+            cnt, grd, it = list(snap[0]), [list(g_) for g_ in snap[1]], snap[2]
+            it_restart = it; first = True; prev = None
         if first:
             first = False; cont = False
         elif h["cont"]:
@@ -191,7 +212,8 @@ def oracle(case, out):
                 d = (xs[i] - wl[i]) if xs[i] < wl[i] else ((xs[i] - wu[i]) if xs[i] > wu[i] else 0.0)
                 fharm[i] = -wk / (m["w"][i] ** 2) * d
         fabf = [fa[i] - fharm[i] for i in range(nd)]
-        elig = ((it > 0 and not cont) or m["step0"]) and m["update"] and (it > 0 or m["tf_same"])
+        rel = it - it_restart
+        elig = ((rel > 0 and not cont) or m["step0"]) and m["update"] and (rel > 0 or m["tf_same"])
         if elig:
             if m["tf_same"]:
                 sb = b; sample = list(h["f"])
@@ -232,6 +254,8 @@ def oracle(case, out):
             if abs(fabf[i]) > 1e-12:
                 applied_nonzero = True
         prev = {"bin": b, "fabf": fabf, "fharm": fharm}
+        if h.get("save"):
+            snap = (list(cnt), [list(g_) for g_ in grd], it)
     last = len(L)
     s = vals(out, last, "samples"); g = vals(out, last, "grad")
     if s is None or g is None:
